@@ -315,6 +315,7 @@ class CSSStyleSheet(cssutils.stylesheets.StyleSheet):
         # save for possible reset
         oldCssRules = self.cssRules
         oldNamespaces = self._namespaces
+        oldVariables = self._variables
 
         self.cssRules = cssutils.css.CSSRuleList()
         # simple during parse
@@ -325,38 +326,39 @@ class CSSStyleSheet(cssutils.stylesheets.StyleSheet):
         newseq = []
 
         # ['CHARSET', 'IMPORT', ('VAR', NAMESPACE'), ('PAGE', 'MEDIA', ruleset)]
-        wellformed, expected = self._parse(
-            0,
-            newseq,
-            tokenizer,
-            {
-                'S': S,
-                'COMMENT': COMMENT,
-                # ignored like S, must keep (not reset) expected
-                'CDO': S,
-                'CDC': S,
-                'CHARSET_SYM': charsetrule,
-                'FONT_FACE_SYM': fontfacerule,
-                'IMPORT_SYM': importrule,
-                'NAMESPACE_SYM': namespacerule,
-                'PAGE_SYM': pagerule,
-                'MEDIA_SYM': mediarule,
-                'VARIABLES_SYM': variablesrule,
-                'ATKEYWORD': unknownrule,
-            },
-            default=ruleset,
-        )
+        wellformed = False
+        try:
+            wellformed, expected = self._parse(
+                0,
+                newseq,
+                tokenizer,
+                {
+                    'S': S,
+                    'COMMENT': COMMENT,
+                    # ignored like S, must keep (not reset) expected
+                    'CDO': S,
+                    'CDC': S,
+                    'CHARSET_SYM': charsetrule,
+                    'FONT_FACE_SYM': fontfacerule,
+                    'IMPORT_SYM': importrule,
+                    'NAMESPACE_SYM': namespacerule,
+                    'PAGE_SYM': pagerule,
+                    'MEDIA_SYM': mediarule,
+                    'VARIABLES_SYM': variablesrule,
+                    'ATKEYWORD': unknownrule,
+                },
+                default=ruleset,
+            )
+        finally:
+            if not wellformed:
+                # reset, also if an exception has been raised during parse
+                self._cssRules = oldCssRules
+                self._namespaces = oldNamespaces
+                self._variables = oldVariables
 
         if wellformed:
             # use proper namespace object
             self._namespaces = _Namespaces(parentStyleSheet=self, log=self._log)
-            self._cleanNamespaces()
-
-        else:
-            # reset
-            self._cssRules = oldCssRules
-            self._namespaces = oldNamespaces
-            self._updateVariables()
             self._cleanNamespaces()
 
     cssText = property(
